@@ -118,7 +118,7 @@ def rule_r1(chk, prog, cg, zone):
                           'aborts the whole run with a traceback instead of '
                           'costing that mutator\'s candidates',
                           loc=m.loc(c), nontrivial=True, argument=why)
-    chk.floor('C04.R1', 'mutator-code call sites in the strategies', n, 12)
+    chk.floor('C04.R1', 'mutator-code call sites in the strategies', n, 6)
     # the handlers themselves
     for modname in ('strategy_ddmin', 'strategy_hierarchical'):
         m = prog.mod(modname)
